@@ -159,7 +159,14 @@ func sandboxStream(sum *Summary, model *vd.Model, n int, seed int64) {
 		case "unknown-action":
 			yml = strings.Replace(yml, "default_action: "+actionName[c.Policy.Default], "default_action: permit", 1)
 		case "unknown-syscall":
-			yml = strings.Replace(yml, "  - action: ", "  - action: errno\n    names:\n    - no_such_syscall\n  - action: ", 1)
+			// an invented name, or a name that is a syscall on another architecture only
+			bad := []string{"no_such_syscall", "socketcall", "_llseek", "mmap2", "ugetrlimit", "fstatat64"}[rng.Intn(6)]
+			if rng.Intn(2) == 0 {
+				yml = strings.Replace(yml, "  - action: ", "  - action: errno\n    names:\n    - "+bad+"\n  - action: ", 1)
+			} else {
+				yml += "  - action: errno\n    names_with_args:\n    - name: " + bad + "\n      arguments:\n      - argument: 0\n        operation: Equal\n        value: 1\n"
+			}
+			kind = "unknown-syscall:" + bad
 		case "unknown-operation":
 			yml += "  - action: errno\n    names_with_args:\n    - name: getegid\n      arguments:\n      - argument: 0\n        operation: Equals\n        value: 1\n"
 		case "bad-argument-index":
